@@ -105,6 +105,9 @@ Proof.
   rewrite (is_prefix_trans _ _ _ Hp E) in H. rewrite andb_false_r in H. discriminate.
 Qed.
 
+Lemma expired_spec_early hz org s : expired hz org s = true <-> s_org s = org /\ latest_ms s <= hz.
+Proof. unfold expired. rewrite andb_true_iff, Z.eqb_eq, N.leb_le. tauto. Qed.
+
 (* ------------------------------------------------------------------ projections of apply_effs *)
 Definition step_dirs (ds : list path) (e : eff) : list path :=
   match e with
@@ -292,19 +295,19 @@ Section PassLemmas.
   Notation interrupted := (interrupted ord ordp ordn).
 
   Lemma log_effs_nil hz org st : sel_log hz org st = [] -> log_effs hz org st = [].
-  Proof. unfold Retention.log_effs. intros ->. reflexivity. Qed.
+  Proof. unfold Retention.log_effs, log_effs_gen. intros ->. reflexivity. Qed.
 
   Definition log_tail (hz : N) (org : Z) (st : store) : list eff :=
     match keep_of (sel_log hz org st) (segmeta st) with
     | [] => [ESegRemove]
-    | keep => [ESegTmp; ESegSet keep]
+    | keep => [ESegTmp true keep; ESegSet keep]
     end.
 
   Lemma log_effs_shape hz org st : sel_log hz org st <> [] ->
     log_effs hz org st =
       map (fun s => ERm (s_dir s)) (ord (sel_log hz org st))
       ++ map (fun s => EMemDel (s_dir s)) (ord (sel_log hz org st)) ++ log_tail hz org st.
-  Proof. unfold Retention.log_effs, log_tail. destruct (sel_log hz org st); [congruence|reflexivity]. Qed.
+  Proof. unfold Retention.log_effs, log_effs_gen, tmp_written, log_tail. destruct (sel_log hz org st); [congruence|reflexivity]. Qed.
 
   Lemma log_tail_nodir hz org st : Forall nodir (log_tail hz org st) /\ Forall nomem (log_tail hz org st).
   Proof. unfold log_tail. destruct (keep_of _ _); split; repeat constructor. Qed.
@@ -1147,9 +1150,9 @@ Section PassLemmas.
           * apply Forall_app; auto.
           * apply post_log_noseg.
           * right. split; auto. intros s0 Hs Hx q Hq Hin. apply H2 in Hin. eapply GONE; eauto.
-        + replace ((R ++ D ++ [ESegTmp; ESegSet (a :: r)]) ++ post) with ((R ++ (D ++ [ESegTmp])) ++ ESegSet (a :: r) :: post)
+        + replace ((R ++ D ++ [ESegTmp true (a :: r); ESegSet (a :: r)]) ++ post) with ((R ++ (D ++ [ESegTmp true (a :: r)])) ++ ESegSet (a :: r) :: post)
             by (rewrite <- !app_assoc; reflexivity).
-          destruct (seg_split_prefix R (D ++ [ESegTmp]) post (ESegSet (a :: r)) (a :: r) (segmeta st) (dirs st) k) as [H|[H1 H2]]; auto.
+          destruct (seg_split_prefix R (D ++ [ESegTmp true (a :: r)]) post (ESegSet (a :: r)) (a :: r) (segmeta st) (dirs st) k) as [H|[H1 H2]]; auto.
           * repeat (apply Forall_app; split); auto. repeat constructor.
           * apply post_log_noseg.
           * right. split; auto. intros s0 Hs Hx q Hq Hin. apply H2 in Hin. eapply GONE; eauto.
@@ -1263,9 +1266,29 @@ Section PassLemmas.
     Qed.
 
     (* ---- the state after restart and a full pass does not depend on where the pass was stopped ---- *)
+    (* the repeated pass may run later than the interrupted one: its horizon hz2 is not older,
+       so it may select more segments *)
+    Variable hz2 : N.
+    Hypothesis Hhz : hz <= hz2.
+    Let exp2 := expired hz2 org.
+    Let nexp2 := fun s => negb (expired hz2 org s).
+
+    Lemma exp_mono s : exp s = true -> exp2 s = true.
+    Proof. unfold exp, exp2. rewrite !expired_spec_early. intros [H1 H2]. split; auto. lia. Qed.
+    Lemma nexp2_nexp s : nexp2 s = true -> nexp s = true.
+    Proof. unfold nexp2, nexp. rewrite !negb_true_iff. intros H. destruct (expired hz org s) eqn:E; auto. apply exp_mono in E. unfold exp2 in E. congruence. Qed.
+    Lemma exp2_false_exp s : exp2 s = false -> exp s = false.
+    Proof. intros H. destruct (exp s) eqn:E; auto. apply exp_mono in E. congruence. Qed.
+
+    Lemma filter_mono {A} (f g : A -> bool) l : (forall x, g x = true -> f x = true) -> filter g (filter f l) = filter g l.
+    Proof.
+      intros H. induction l as [|a r IH]; cbn; auto. destruct (f a) eqn:E; cbn; [rewrite IH; reflexivity|].
+      destruct (g a) eqn:G; auto. apply H in G. congruence.
+    Qed.
+
     Definition Yk (k : nat) : store := restart (interrupted k hz org st).
-    Definition FL : list seg := filter nexp (segmeta st ++ unrot st).
-    Definition FM : list seg := filter nexp (mmeta st).
+    Definition FL : list seg := filter nexp2 (segmeta st ++ unrot st).
+    Definition FM : list seg := filter nexp2 (mmeta st).
 
     Lemma Yk_segmeta k : segmeta (Yk k) = segmeta (interrupted k hz org st) ++ unrot st.
     Proof. unfold Yk, restart. cbn. rewrite prefix_unrot. reflexivity. Qed.
@@ -1281,15 +1304,15 @@ Section PassLemmas.
     Lemma filter_idem {A} (f : A -> bool) l : filter f (filter f l) = filter f l.
     Proof. induction l as [|a r IH]; cbn; auto. destruct (f a) eqn:E; cbn; rewrite ?E, IH; reflexivity. Qed.
 
-    Lemma Yk_seg_filter k : filter nexp (segmeta (Yk k)) = FL.
+    Lemma Yk_seg_filter k : filter nexp2 (segmeta (Yk k)) = FL.
     Proof.
       rewrite Yk_segmeta. unfold FL. rewrite !filter_app. f_equal.
-      destruct (prefix_segmeta k) as [E|[E _]]; cbn zeta in E; rewrite E; auto. apply filter_idem.
+      destruct (prefix_segmeta k) as [E|[E _]]; cbn zeta in E; rewrite E; auto. apply filter_mono. exact nexp2_nexp.
     Qed.
-    Lemma Yk_mm_filter k : filter nexp (mmeta (Yk k)) = FM.
+    Lemma Yk_mm_filter k : filter nexp2 (mmeta (Yk k)) = FM.
     Proof.
       rewrite Yk_mmeta. unfold FM.
-      destruct (prefix_mmeta k) as [E|[E _]]; cbn zeta in E; rewrite E; auto. apply filter_idem.
+      destruct (prefix_mmeta k) as [E|[E _]]; cbn zeta in E; rewrite E; auto. apply filter_mono. exact nexp2_nexp.
     Qed.
 
     Lemma Yk_seg_sub k s : In s (segmeta (Yk k)) -> In s (segmeta st ++ unrot st).
@@ -1321,7 +1344,7 @@ Section PassLemmas.
       rewrite Yk_mmeta. pose proof (wf_nd_mm st W) as H.
       destruct (prefix_mmeta k) as [E|[E _]]; cbn zeta in E; rewrite E; auto. apply NoDup_map_filter. exact H.
     Qed.
-    Lemma Yk_ok k : mmem_ok hz org (Yk k).
+    Lemma Yk_ok k : mmem_ok hz2 org (Yk k).
     Proof. intros s Hs. rewrite Yk_mmem. apply in_map. apply sel_met_sub in Hs. tauto. Qed.
 
     Lemma listing_mem_char (f : seg -> bool) L q : NoDup (map s_dir L) ->
@@ -1335,61 +1358,67 @@ Section PassLemmas.
         assert (x = s) by (eapply NoDup_map_inj; eauto; congruence). subst. rewrite Fx in F. discriminate.
     Qed.
 
-    Lemma canon_segmeta k : segmeta (run hz org (Yk k)) = FL.
+    Lemma canon_segmeta k : segmeta (run hz2 org (Yk k)) = FL.
     Proof. rewrite run_segmeta. unfold sel_log. rewrite keep_of_filter by apply Yk_seg_nd. apply Yk_seg_filter. Qed.
 
-    Lemma canon_mmeta k : mmeta (run hz org (Yk k)) = FM.
+    Lemma canon_mmeta k : mmeta (run hz2 org (Yk k)) = FM.
     Proof.
       rewrite run_mmeta by (auto using Yk_mm_nd, Yk_ok). unfold sel_met.
       rewrite keep_of_filter by apply Yk_mm_nd. apply Yk_mm_filter.
     Qed.
 
-    Lemma canon_mem k q : In q (mem (run hz org (Yk k))) <-> In q (map s_dir FL).
+    Lemma canon_mem k q : In q (mem (run hz2 org (Yk k))) <-> In q (map s_dir FL).
     Proof.
       etransitivity; [apply run_mem|]. rewrite Yk_mem.
-      etransitivity; [apply (listing_mem_char exp (segmeta (Yk k)) q (Yk_seg_nd k))|].
-      fold nexp. rewrite Yk_seg_filter. reflexivity.
+      etransitivity; [apply (listing_mem_char exp2 (segmeta (Yk k)) q (Yk_seg_nd k))|].
+      fold nexp2. rewrite Yk_seg_filter. reflexivity.
     Qed.
 
-    Lemma canon_mmem k q : In q (mmem (run hz org (Yk k))) <-> In q (map s_dir FM).
+    Lemma canon_mmem k q : In q (mmem (run hz2 org (Yk k))) <-> In q (map s_dir FM).
     Proof.
-      etransitivity; [apply (run_mmem hz org (Yk k) (Yk_mm_nd k) (Yk_ok k))|]. rewrite Yk_mmem.
-      etransitivity; [apply (listing_mem_char exp (mmeta (Yk k)) q (Yk_mm_nd k))|].
-      fold nexp. rewrite Yk_mm_filter. reflexivity.
+      etransitivity; [apply (run_mmem hz2 org (Yk k) (Yk_mm_nd k) (Yk_ok k))|]. rewrite Yk_mmem.
+      etransitivity; [apply (listing_mem_char exp2 (mmeta (Yk k)) q (Yk_mm_nd k))|].
+      fold nexp2. rewrite Yk_mm_filter. reflexivity.
     Qed.
 
-    Lemma canon_unrot k : unrot (run hz org (Yk k)) = [].
+    Lemma canon_unrot k : unrot (run hz2 org (Yk k)) = [].
     Proof. rewrite run_unrot. reflexivity. Qed.
 
     Lemma canon_dirs k s : In s (segmeta st ++ mmeta st ++ unrot st) ->
-      (In (s_dir s) (dirs (run hz org (Yk k))) <-> In (s_dir s) (dirs st) /\ exp s = false).
+      (In (s_dir s) (dirs (run hz2 org (Yk k))) <-> In (s_dir s) (dirs st) /\ exp2 s = false).
     Proof.
       intros Hs. split.
       - intros H. assert (HX : In (s_dir s) (dirs (interrupted k hz org st))) by (rewrite <- Yk_dirs; eapply run_dirs_incl; exact H).
         split; [eapply prefix_dirs_incl; exact HX|].
-        destruct (exp s) eqn:Ex; auto. exfalso.
+        destruct (exp2 s) eqn:Ex; auto. exfalso.
         apply in_app_or in Hs as [Hs|Hs]; [|apply in_app_or in Hs as [Hs|Hs]].
         + pose proof (prefix_segmeta k) as PS; cbn zeta in PS; destruct PS as [E|[E G]].
-          * eapply (run_dirs_gone_log hz org (Yk k) s); eauto using is_prefix_refl.
+          * eapply (run_dirs_gone_log hz2 org (Yk k) s); eauto using is_prefix_refl.
             apply filter_In. split; auto. rewrite Yk_segmeta, E. apply in_or_app. auto.
-          * eapply G; eauto using is_prefix_refl.
+          * destruct (exp s) eqn:Ex1; [eapply G; eauto using is_prefix_refl|].
+            eapply (run_dirs_gone_log hz2 org (Yk k) s); eauto using is_prefix_refl.
+            apply filter_In. split; auto. rewrite Yk_segmeta, E. apply in_or_app. left. apply filter_In. split; auto.
+            unfold nexp. unfold exp in Ex1. rewrite Ex1. reflexivity.
         + pose proof (prefix_mmeta k) as PS; cbn zeta in PS; destruct PS as [E|[E G]].
-          * eapply (run_dirs_gone_met hz org (Yk k) (Yk_mm_nd k) (Yk_ok k) s); eauto using is_prefix_refl.
+          * eapply (run_dirs_gone_met hz2 org (Yk k) (Yk_mm_nd k) (Yk_ok k) s); eauto using is_prefix_refl.
             apply filter_In. split; auto. rewrite Yk_mmeta, E. exact Hs.
-          * eapply G; eauto.
-        + eapply (run_dirs_gone_log hz org (Yk k) s); eauto using is_prefix_refl.
+          * destruct (exp s) eqn:Ex1; [eapply G; eauto|].
+            eapply (run_dirs_gone_met hz2 org (Yk k) (Yk_mm_nd k) (Yk_ok k) s); eauto using is_prefix_refl.
+            apply filter_In. split; auto. rewrite Yk_mmeta, E. apply filter_In. split; auto.
+            unfold nexp. unfold exp in Ex1. rewrite Ex1. reflexivity.
+        + eapply (run_dirs_gone_log hz2 org (Yk k) s); eauto using is_prefix_refl.
           apply filter_In. split; auto. rewrite Yk_segmeta. apply in_or_app. auto.
       - intros [Hd Ex]. apply run_dirs_safe.
-        + rewrite Yk_dirs. apply prefix_dirs_surv; auto.
+        + rewrite Yk_dirs. apply prefix_dirs_surv; auto using exp2_false_exp.
         + intros x Hx. apply sel_log_sub in Hx as [Hx Ee]. apply Yk_seg_sub in Hx.
           assert (Hx1 : In x (segmeta st ++ mmeta st ++ unrot st)).
           { apply in_app_or in Hx. apply in_or_app. destruct Hx; auto. right. apply in_or_app. auto. }
-          destruct (wf_same_or_apart st W x s Hx1 Hs) as [->|H]; [unfold exp in Ex; congruence|].
+          destruct (wf_same_or_apart st W x s Hx1 Hs) as [->|H]; [unfold exp2 in Ex; congruence|].
           unfold apart in H. apply andb_true_iff in H as [H _]. apply negb_true_iff in H. exact H.
         + intros t Ht. unfold met_targets in Ht. apply in_app_or in Ht as [Ht|Ht].
           * apply in_map_iff in Ht as [x [<- Hx]]. apply sel_met_sub in Hx as [Hx Ee]. apply Yk_mm_sub in Hx.
             assert (Hx1 : In x (segmeta st ++ mmeta st ++ unrot st)) by (apply in_or_app; right; apply in_or_app; auto).
-            destruct (wf_same_or_apart st W s x Hs Hx1) as [->|H]; [unfold exp in Ex; congruence|exact H].
+            destruct (wf_same_or_apart st W s x Hs Hx1) as [->|H]; [unfold exp2 in Ex; congruence|exact H].
           * apply in_map_iff in Ht as [x [<- Hx]]. apply Yk_mm_sub in Hx.
             apply (wf_tt _ W); [apply in_map; exact Hx|apply in_seg_dirs; exact Hs].
     Qed.
@@ -1398,8 +1427,8 @@ Section PassLemmas.
     Proof. reflexivity. Qed.
 
     Theorem interrupted_then_repeated_data k :
-      let A := run hz org (restart (interrupted k hz org st)) in
-      let B := run hz org (restart st) in
+      let A := run hz2 org (restart (interrupted k hz org st)) in
+      let B := run hz2 org (restart st) in
       segmeta A = segmeta B /\ mmeta A = mmeta B /\ unrot A = unrot B /\
       (forall q, In q (mem A) <-> In q (mem B)) /\
       (forall q, In q (mmem A) <-> In q (mmem B)) /\
@@ -1470,16 +1499,17 @@ Section PassLemmas.
     Qed.
 
     Theorem interrupted_survivor_searchable k s :
-      In s (segmeta st ++ mmeta st ++ unrot st) -> exp s = false -> In (s_dir s) (dirs st) ->
+      In s (segmeta st ++ mmeta st ++ unrot st) -> exp2 s = false -> In (s_dir s) (dirs st) ->
       (s_kind s = KLog -> has_table st s = true) ->
-      searchable (run hz org (restart (interrupted k hz org st))) s = true.
+      searchable (run hz2 org (restart (interrupted k hz org st))) s = true.
     Proof.
       intros Hs Ex Hd Ht. fold (Yk k).
-      assert (HD : In (s_dir s) (dirs (run hz org (Yk k)))) by (apply canon_dirs; auto).
-      assert (NE : nexp s = true) by (unfold nexp; unfold exp in Ex; rewrite Ex; reflexivity).
+      assert (HD : In (s_dir s) (dirs (run hz2 org (Yk k)))) by (apply canon_dirs; auto).
+      assert (NE : nexp2 s = true) by (unfold nexp2; unfold exp2 in Ex; rewrite Ex; reflexivity).
+      assert (Ex1 : exp s = false) by (apply exp2_false_exp; exact Ex).
       unfold searchable.
       assert (LOG : In s (segmeta st ++ unrot st) -> s_kind s = KLog /\
-                (has_table (run hz org (Yk k)) s && mem_path (s_dir s) (mem (run hz org (Yk k))) && mem_path (s_dir s) (dirs (run hz org (Yk k))) = true)).
+                (has_table (run hz2 org (Yk k)) s && mem_path (s_dir s) (mem (run hz2 org (Yk k))) && mem_path (s_dir s) (dirs (run hz2 org (Yk k))) = true)).
       { intros Hl. assert (K : s_kind s = KLog) by (apply (wf_log _ W); exact Hl). split; auto.
         assert (FLs : In s (FL)) by (unfold FL; apply filter_In; auto).
         apply andb_true_iff. split; [apply andb_true_iff; split|].
@@ -1487,7 +1517,7 @@ Section PassLemmas.
           apply run_vt_keeps.
           + change (vtables (Yk k)) with (vtables (interrupted k hz org st)). unfold Retention.interrupted.
             rewrite vtables_apply. apply fold_vt_safe; auto. apply Forall_firstn. apply pass_effs_vt_safe; auto.
-          + unfold sel_log. rewrite keep_of_filter by apply Yk_seg_nd. fold nexp. rewrite Yk_seg_filter.
+          + unfold sel_log. rewrite keep_of_filter by apply Yk_seg_nd. fold nexp2. rewrite Yk_seg_filter.
             change (unrot (Yk k)) with (@nil seg). rewrite app_nil_r. apply in_map. exact FLs.
         - apply mem_path_In. apply canon_mem. apply in_map. exact FLs.
         - apply mem_path_In. exact HD. }
@@ -1498,6 +1528,25 @@ Section PassLemmas.
       - destruct LOG as [K H]; [apply in_or_app; auto|]. rewrite K. exact H.
     Qed.
   End Interrupt.
+
+  (* ---------------- a stale segmeta.json.tmp ---------------- *)
+  (* the temporary file is opened with O_TRUNC: whatever an interrupted pass left in it, the
+     pass ends with segmeta.json = the lines that were not selected *)
+  Theorem stale_tmp_harmless hz org st c : wf st = true -> mmem_ok hz org st ->
+    let A := run hz org (with_seg_tmp st c) in
+    segmeta A = filter (fun s => negb (expired hz org s)) (segmeta st) /\
+    mmeta A = filter (fun s => negb (expired hz org s)) (mmeta st) /\
+    segmeta A = segmeta (run hz org st) /\
+    (forall s, In s (segmeta st ++ mmeta st) -> In (s_dir s) (dirs st) ->
+       (In s (segmeta A ++ mmeta A) <-> In (s_dir s) (dirs A))).
+  Proof.
+    intros Hwf OK.
+    assert (Hwf' : wf (with_seg_tmp st c) = true) by exact Hwf.
+    assert (OK' : mmem_ok hz org (with_seg_tmp st c)) by exact OK.
+    destruct (metadata_lists_survivors hz org (with_seg_tmp st c) Hwf' OK') as [A1 [A2 A3]].
+    destruct (metadata_lists_survivors hz org st Hwf OK) as [B1 _].
+    cbn zeta. split; [exact A1|]. split; [exact A2|]. split; [rewrite B1; exact A1|]. exact A3.
+  Qed.
 
   (* ---------------- the full statement under the guard ---------------- *)
   Definition rm_or_nodir (e : eff) : Prop := match e with ERmEmpty _ => False | _ => True end.
@@ -1561,7 +1610,7 @@ Section PassLemmas.
     Lemma g_ok : mmem_ok hz org st.
     Proof. intros s Hs. rewrite g_nomet in Hs by reflexivity. contradiction. Qed.
 
-    Lemma g_tables t : In (org, t) (vtables st) -> In t (map s_table (FL hz org st)).
+    Lemma g_tables t : In (org, t) (vtables st) -> In t (map s_table (FL org st hz)).
     Proof.
       intros H. unfold interrupt_guard in G. apply andb_true_iff in G as [_ G2]. unfold no_index_emptied in G2.
       rewrite forallb_forall in G2. apply G2 in H. cbn in H. rewrite Z.eqb_refl in H. cbn in H.
@@ -1608,9 +1657,9 @@ Section PassLemmas.
         assert (E1 : vtables (st_met hz org Y) = vtables st).
         { unfold st_met. rewrite M0. cbn. unfold st_log. destruct (log_frame hz org Y) as [_ [_ [E2 _]]]. cbn in E2. rewrite E2. exact EV. }
         rewrite E1 in Ht. apply g_tables in Ht. unfold in_use.
-        assert (E2 : segmeta (st_met hz org Y) = FL hz org st).
+        assert (E2 : segmeta (st_met hz org Y) = FL org st hz).
         { unfold st_met. rewrite M0. cbn. unfold st_log. rewrite log_segmeta. unfold sel_log.
-          rewrite keep_of_filter by (apply (Yk_seg_nd hz org st Hwf k)). apply (Yk_seg_filter hz org st Hwf k). }
+          rewrite keep_of_filter by (apply (Yk_seg_nd hz org st Hwf k)). apply (Yk_seg_filter hz org st Hwf hz (N.le_refl hz) k). }
         assert (E3 : unrot (st_met hz org Y) = []) by (unfold st_met, st_log; rewrite !unrot_apply; reflexivity).
         rewrite E2, E3, app_nil_r. exact Ht. }
       split.
@@ -1651,7 +1700,7 @@ Section PassLemmas.
             -- apply Forall_map_eff. intros; exact I.
             -- unfold log_tail. destruct (keep_of _ _); repeat constructor.
         + intros s Hs. apply sel_log_sub in Hs as [Hs Ex]. apply H; auto.
-          unfold Y in Hs. apply (Yk_seg_sub hz org st Hwf k) in Hs. exact Hs.
+          unfold Y in Hs. apply (Yk_seg_sub hz org st Hwf hz k) in Hs. exact Hs.
     Qed.
 
     Theorem interrupted_then_repeated_guarded k :
@@ -1661,7 +1710,7 @@ Section PassLemmas.
       (forall q, In q (mem A) <-> In q (mem B)) /\ (forall q, In q (mmem A) <-> In q (mmem B)) /\
       dirs A = dirs B /\ vtables A = vtables B.
     Proof.
-      cbn zeta. destruct (interrupted_then_repeated_data hz org st Hwf g_ok k) as [A1 [A2 [A3 [A4 [A5 _]]]]]. cbn zeta in *.
+      cbn zeta. destruct (interrupted_then_repeated_data hz org st Hwf g_ok hz (N.le_refl hz) k) as [A1 [A2 [A3 [A4 [A5 _]]]]]. cbn zeta in *.
       repeat split; try assumption; try apply A4; try apply A5.
       - (* directories: both sides are filters of the directories of st with the same members *)
         change (restart st) with (Yk hz org st 0). change (restart (interrupted k hz org st)) with (Yk hz org st k).
@@ -1708,7 +1757,7 @@ Definition w_tt_store : store :=
   mkstore [] [mkseg [1;2;3;4] KMet 100 100 0 0 [1;5;3;4]; mkseg [1;2;6;4] KMet 100 900 0 0 [1;5;6;4]]
     [] [[1;2;3;4]; [1;2;6;4]]
     [[1]; [1;2]; [1;2;3]; [1;2;3;4]; [1;2;6]; [1;2;6;4]; [1;5]; [1;5;3]; [1;5;3;4]; [1;5;6]; [1;5;6;4]]
-    [] false false [].
+    [] None false [].
 
 Lemma tagstree_left_behind_witness :
   wf w_tt_store = true /\ mmem_ok 500000 0 w_tt_store /\
@@ -1726,7 +1775,7 @@ Definition w_vt_store : store :=
   mkstore [mkseg [1;2;3;4] KLog 100 100 0 1 []; mkseg [1;5;6;4] KLog 100 900 0 2 []] []
     [[1;2;3;4]; [1;5;6;4]] []
     [[1]; [1;2]; [1;2;3]; [1;2;3;4]; [1;5]; [1;5;6]; [1;5;6;4]]
-    [] false false [(0%Z, 1); (0%Z, 2)].
+    [] None false [(0%Z, 1); (0%Z, 2)].
 Definition w_vt_seg : seg := mkseg [1;5;6;4] KLog 100 900 0 2 [].
 
 Lemma names_file_truncated_witness :
@@ -1743,7 +1792,7 @@ Definition w_ab_store : store :=
   mkstore [] [mkseg [1;2;3;4] KMet 100 100 0 0 [1;5;3;4]; mkseg [1;2;6;4] KMet 100 100 0 0 [1;5;6;4]]
     [] [[1;2;3;4]]
     [[1]; [1;2]; [1;2;3]; [1;2;3;4]; [1;2;6]; [1;2;6;4]; [1;5]; [1;5;3]; [1;5;3;4]; [1;5;6]; [1;5;6;4]]
-    [] false false [].
+    [] None false [].
 Definition w_ab_seg : seg := mkseg [1;2;3;4] KMet 100 100 0 0 [1;5;3;4].
 
 Lemma metrics_abort_witness :
@@ -1759,8 +1808,34 @@ Definition w_g_store : store :=
   mkstore [mkseg [1;2;3;4] KLog 100 100 0 1 []; mkseg [1;2;3;5] KLog 100 900 0 1 []] []
     [[1;2;3;4]; [1;2;3;5]] []
     [[1]; [1;2]; [1;2;3]; [1;2;3;4]; [1;2;3;5]]
-    [] false false [(0%Z, 1)].
+    [] None false [(0%Z, 1)].
 
 Lemma guard_satisfiable :
   wf w_g_store = true /\ interrupt_guard 500 0 w_g_store = true /\ sel_log 500 0 w_g_store <> [].
 Proof. repeat split; try (vm_compute; reflexivity). vm_compute. discriminate. Qed.
+
+
+(* ------------------------------------------------------------------ the temporary file without O_TRUNC *)
+(* segmeta.json = [A; C; L] (L rotated after the newer C).  A pass at horizon 300 selects A and is
+   stopped after segmeta.json.tmp = [C; L] has been written.  The repeated pass runs when L has
+   expired as well (horizon 500) and keeps only C: written over the stale file without truncation
+   the result is [C; L], and the rename makes segmeta.json list L, whose directory is gone. *)
+Definition w_nt_L : seg := mkseg [1;7;8;4] KLog 350 400 0 3 [].
+Definition w_nt_store : store :=
+  mkstore [mkseg [1;2;3;4] KLog 100 100 0 1 []; mkseg [1;5;6;4] KLog 100 900 0 2 []; w_nt_L] []
+    [[1;2;3;4]; [1;5;6;4]; [1;7;8;4]] []
+    [[1]; [1;2]; [1;2;3]; [1;2;3;4]; [1;5]; [1;5;6]; [1;5;6;4]; [1;7]; [1;7;8]; [1;7;8;4]]
+    [] None false [(0%Z, 1); (0%Z, 2); (0%Z, 3)].
+
+Lemma tmp_without_truncation_witness :
+  wf w_nt_store = true /\ 300 <= 500 /\ expired 300 0 w_nt_L = false /\ expired 500 0 w_nt_L = true /\
+  let X := restart (apply_effs (firstn 3 (pass_effs_notrunc idl idl idl 300 0 w_nt_store)) w_nt_store) in
+  let A := run_notrunc idl idl idl 500 0 X in
+  In w_nt_L (segmeta A) /\ ~ In (s_dir w_nt_L) (dirs A) /\
+  (* the code (O_TRUNC) on the same interrupted state *)
+  ~ In w_nt_L (segmeta (run idl idl idl 500 0 X)).
+Proof.
+  split; [vm_compute; reflexivity|]. split; [vm_compute; discriminate|].
+  split; [vm_compute; reflexivity|]. split; [vm_compute; reflexivity|].
+  cbn zeta. split; [vm_compute; auto|]. split; vm_compute; intros H; repeat (destruct H as [H|H]; try discriminate); auto.
+Qed.
